@@ -24,6 +24,10 @@ H1  the REAL writer (SimpleProcessTensor.export, or a file-backed PT-TEMPO run: 
       '_anyversion' cases: symbolic 3-way choice of the file's oqupy_version attribute (running
           version / another version / attribute missing); the version warning is not a corruption
           warning.  '_nocaps' cases: export() of a process tensor whose caps were never set.
+      'manual_*_relabel' cases: hand-driven FileProcessTensor write sequence (write/overwrite mode)
+          in which pt.name / pt.description are assigned to the OPEN file at a symbolic position
+          between the tensor writes (name / description / both per case); '_relabel'
+          PT-TEMPO cases: symbolic Bool, relabelled right after creation.
 H2  symbolic mode in {read, write, overwrite} x file exists/missing x filename given/None:
     'write' never replaces an existing file; remove() only for temporary / overwrite objects,
     never in read mode; untouched files keep their content.
@@ -93,6 +97,10 @@ def close_quietly(obj):
             obj.close()
         except Exception:  # noqa
             pass
+
+
+def kind_is_none(kind, k):
+    return kind is None
 
 
 def run_writer(ws, writer, fn, crash_at, fault=None, attr_map=None):
@@ -169,15 +177,19 @@ class H1(Case):
     assumptions = ("crash model: effects of the completed file operations only, no close()",)
     env = ENV
     real_env = {}
-    max_paths = 400
+    max_paths = 1500
 
     VERSIONS = ("written by the running version", "written by another version (oqupy_version differs)",
                 "written by a version that sets no oqupy_version attribute")
 
-    def __init__(self, part, seq, N, kind, rank=4, K=None, exc="OSError", version="same", caps=True):
+    def __init__(self, part, seq, N, kind, rank=4, K=None, exc="OSError", version="same", caps=True, relabel=False, mode="write"):
         self.part, self.seq, self.N, self.kind, self.rank, self.K, self.exc = part, seq, N, kind, rank, K, exc
-        self.version, self.caps = version, caps
-        self.id = "H1/%s/%s_N%d%s_%s" % (part, seq, N, "_r%d" % rank if seq == "export" else "_K%s" % K, kind)
+        self.version, self.caps, self.relabel, self.mode = version, caps, relabel, mode
+        self.id = "H1/%s/%s_N%d%s_%s" % (part, seq, N, "_r%d" % rank if seq in ("export", "manual") else "_K%s" % K, kind)
+        if seq == "manual":
+            self.id += "_%s_relabel_%s" % (mode, relabel)   # hand-driven write sequence, open file relabelled at a symbolic position
+        elif relabel:
+            self.id += "_relabel"                # symbolic Bool: relabelled right after creation
         if part == "exception":
             self.id += "_" + exc
         if version == "sym":
@@ -199,14 +211,65 @@ class H1(Case):
         pt.name = "exported"
         return pt, (lambda fn: pt.export(fn)), (lambda fn: pt.export(fn))
 
+    RELABEL = ("no relabelling", "pt.name assigned", "pt.description assigned", "pt.name and pt.description assigned")
+
+    def _manual_writer(self, inp):
+        """hand-driven write sequence of a FileProcessTensor opened in write/overwrite mode: all MPO
+        tensors, all caps, close(); at a symbolic position between the tensor writes (incl. before the
+        first and after the last) the OPEN file is relabelled (name / description / both: per case)"""
+        d, N = 2, self.N
+        src, _, caps = build_pt(inp, "e", d, N, 2 if N > 1 else 1, self.rank, True, dt=0.1)
+        wc = {"name": 1, "description": 2, "both": 3}[self.relabel]
+        pos = inp.int("position", 0, 2 * N + 1)
+        pc = int(pos)
+        steps = [("mpo", k) for k in range(N)] + [("cap", k) for k in range(N + 1)]
+        ref = ptm.SimpleProcessTensor(hilbert_space_dimension=d, dt=0.1, transform_in=src.transform_in, transform_out=src.transform_out,
+                                      name="first name", description="first description")
+        for k in range(N):
+            ref.set_mpo_tensor(k, src._mpo_tensors[k])
+        for k in range(N + 1):
+            ref.set_cap_tensor(k, caps[k])
+        if wc in (1, 3):
+            ref.name = "second name"
+        if wc in (2, 3):
+            ref.description = "second description"
+        self._relabel_info = "%s before tensor write no. %d of %d" % (self.RELABEL[wc], pc, len(steps))
+
+        def write(fn):
+            f = ptm.FileProcessTensor(mode=self.mode, filename=fn, hilbert_space_dimension=d, dt=0.1, transform_in=src.transform_in,
+                                      transform_out=src.transform_out, name="first name", description="first description")
+            for i, (kind, k) in enumerate(steps + [(None, None)]):
+                if i == pc:
+                    if wc in (1, 3):
+                        f.name = "second name"
+                    if wc in (2, 3):
+                        f.description = "second description"
+                if kind_is_none(kind, k):
+                    break
+                if kind == "mpo":
+                    f.set_mpo_tensor(k, src._mpo_tensors[k])
+                else:
+                    f.set_cap_tensor(k, caps[k])
+            f.close()
+        return ref, write, write
+
     def _pt_tempo_writer(self, inp):
         d, N, K = 2, self.N, self.K
         infl = lib.Influences(inp, d, K)
         state = {}
+        relabel = bool(inp.bool("relabel")) if self.relabel else False
+        self._relabel_info = "file-backed process tensor relabelled after creation" if relabel else "no relabelling"
+
+        def label(fpt):
+            # the user renames the (still empty, open) file-backed process tensor of a PT-TEMPO run
+            if relabel:
+                fpt.description = "second description"
+                fpt.name = "second name"
 
         def full(fn):
             # the complete file-backed PT-TEMPO run
             fpt = ptm.FileProcessTensor(mode="write", filename=fn, hilbert_space_dimension=d, dt=0.1, name="pt-tempo")
+            label(fpt)
             pb = PtTempoBackend(d, infl, fpt, np.ones(d * d), np.ones(d * d), N, (K if K is not None else N), lib.EPS_REAL, {})
             pb.initialize()
             while pb.compute_step():
@@ -216,6 +279,7 @@ class H1(Case):
             # caps that belong to them (computed by the in-memory class's own compute_caps, so
             # "complete" also means: every cap is there and is the right one)
             mem = ptm.SimpleProcessTensor(hilbert_space_dimension=d, dt=0.1, name="pt-tempo")
+            label(mem)
             for k in range(N):
                 mem.set_mpo_tensor(k, fpt.get_mpo_tensor(k, transformed=False))
             mem.compute_caps()
@@ -226,6 +290,7 @@ class H1(Case):
             # same file-operation sequence (the tensor-network computation performs no file
             # operation): new file object, the real update_process_tensor writes into it
             fpt = ptm.FileProcessTensor(mode="write", filename=fn, hilbert_space_dimension=d, dt=0.1, name="pt-tempo")
+            label(fpt)
             pb = state["pb"]
             pb._process_tensor = fpt
             pb.update_process_tensor()
@@ -236,8 +301,11 @@ class H1(Case):
         N = self.N
         obs = []
         with Workspace(inp) as ws:
+            self._relabel_info = "no relabelling"
             if self.seq == "export":
                 ref, full, again = self._export_writer(inp)
+            elif self.seq == "manual":
+                ref, full, again = self._manual_writer(inp)
             else:
                 state, full, again = self._pt_tempo_writer(inp)
             amap, vwhat = None, self.VERSIONS[0]
@@ -248,7 +316,7 @@ class H1(Case):
                 vwhat = self.VERSIONS[vc]
             self._amap, self._vwhat = amap, vwhat
             ops, outcome = run_writer(ws, full, ws.path("complete.hdf5"), None, attr_map=amap)
-            if self.seq != "export":
+            if self.seq == "pt_tempo":
                 ref = state["mem"]
             if outcome != "completed" or not ops:
                 raise RuntimeError("dry run of the writer did not complete: %r" % (ops[-3:],))
@@ -273,7 +341,7 @@ class H1(Case):
                 raise RuntimeError("operation sequence of the crash run differs from the dry run")
             res = read_back(fn, self.kind)
             try:
-                where = describe(ops, kc) + "; file " + vwhat
+                where = describe(ops, kc) + "; file " + vwhat + "; " + self._relabel_info
                 if self.part == "writing_flag":
                     detected = res["raised"] is not None or res["corrupt_warning"]
                     obs.append(Ob.holds("writer killed before the end of the writing phase: re-opening fails or warns 'may be corrupt'",
@@ -311,7 +379,7 @@ def _run_exception(self, inp, ws, ops, ref, again):
         detected = res["raised"] is not None or res["corrupt_warning"]
         opened = res["obj"] is not None
         after = None if ops2 is None else ops2[kc:]
-        info = "file " + self._vwhat + "; operation %d of %d %r raised %s; writer %s; file operations performed while unwinding: %r; import_process_tensor(..., %r) %s, warnings=%r" % (
+        info = self._relabel_info + "; file " + self._vwhat + "; operation %d of %d %r raised %s; writer %s; file operations performed while unwinding: %r; import_process_tensor(..., %r) %s, warnings=%r" % (
             kc, L, ops[kc], self.exc, outcome, after, self.kind,
             "raised %r" % (res["raised"],) if not opened else "returned an object of length %s" % _len(res["obj"]), res["warnings"])
         obs.append(Ob.holds("writer died by an exception: re-opening fails, warns 'may be corrupt', or yields an object",
@@ -768,6 +836,12 @@ def cases(tier):
            H1("exception", "export", 1, "file", rank=3, exc="OSError", version="sym"),
            H1("clean", "export", 2, "file", rank=4, caps=False), H1("clean", "export", 1, "simple", rank=3, caps=False, version="sym"),
            H1("writing_flag", "export", 2, "file", rank=3, caps=False), H1("exception", "export", 2, "simple", rank=4, caps=False, exc="KeyboardInterrupt")]
+    # the open file is relabelled (name / description assigned) between the tensor writes
+    cs += [H1("writing_flag", "manual", 1, "file", rank=3, mode="write", relabel="name"),
+           H1("writing_flag", "manual", 1, "simple", rank=4, mode="overwrite", relabel="description"),
+           H1("clean", "manual", 1, "file", rank=4, mode="overwrite", relabel="both"),
+           H1("exception", "manual", 1, "simple", rank=3, mode="write", exc="OSError", relabel="description"),
+           H1("writing_flag", "pt_tempo", 2, "simple", K=None, relabel=True), H1("clean", "pt_tempo", 2, "file", K=1, relabel=True)]
     cs += [H1("exception", "export", 2, "file", rank=3, exc="OSError"), H1("exception", "export", 1, "simple", rank=4, exc="KeyboardInterrupt"),
            H1("exception", "pt_tempo", 2, "file", K=None, exc="OSError")]
     cs += [H2(), H3(), H3b("init"), H3b("api"), H2b(), H3c()]
@@ -776,6 +850,11 @@ def cases(tier):
                H1("clean", "export", 3, "file", rank=4, version="sym"), H1("clean", "pt_tempo", 3, "simple", K=1, version="sym"),
                H1("exception", "pt_tempo", 2, "simple", K=None, exc="OSError", version="sym"),
                H1("clean", "export", 3, "simple", rank=3, caps=False), H1("writing_flag", "export", 1, "simple", rank=4, caps=False, version="sym")]
+        cs += [H1("writing_flag", "manual", 2, "simple", rank=3, mode="write", relabel="both"),
+               H1("writing_flag", "manual", 1, "file", rank=4, mode="overwrite", version="sym", relabel="name"),
+               H1("clean", "manual", 2, "simple", rank=3, mode="write", relabel="name"),
+               H1("exception", "manual", 2, "file", rank=4, mode="overwrite", exc="KeyboardInterrupt", relabel="name"),
+               H1("writing_flag", "pt_tempo", 3, "file", K=1, relabel=True), H1("exception", "pt_tempo", 2, "file", K=None, relabel=True)]
         cs += [H1("exception", "export", 3, "simple", rank=4, exc="MemoryError"), H1("exception", "export", 3, "file", rank=3, exc="KeyboardInterrupt"),
                H1("exception", "export", 2, "simple", rank=4, exc="OSError"),
                H1("exception", "pt_tempo", 3, "simple", K=1, exc="KeyboardInterrupt"), H1("exception", "pt_tempo", 2, "simple", K=1, exc="MemoryError")]
